@@ -62,6 +62,12 @@ def check_into(ck, fn, with_out, ev=None):
                 not any(e[0] == "drop" and _mentions(e[1], pay_ok) for e in o.effects) and \
                 sum(1 for e in o.effects if e[0] in ("call", "icall") and any(_mentions(a, pay_ok) for a in e[2])) == 1
             ck.ob("I-ok-writes-once", key, good, "%s: the Ok case must move the payload into ok_out exactly once: %s" % (key, o), sample={"fn": key, "case": repr(o)[:200]})
+        if not with_out:
+            # without an output slot the success value ends here: it is dropped (once) and not stored anywhere
+            drops = [e for e in o.effects if e[0] == "drop" and (_mentions(e[1], pay_ok) or sem.strip(e[1]) == res or _mentions(e[1], res))]
+            stored = [e for e in o.effects if e[0] in ("call", "icall") and any(_mentions(a, pay_ok) for a in e[2])]
+            ck.ob("I-ok-payload-consumed", key, len(drops) == 1 and not stored,
+                  "%s: the Ok payload must be dropped exactly once (no slot to move it to): drops=%d, handed to %s" % (key, len(drops), [e[1] for e in stored]))
         ck.ob("I-ok-returns-zero", key, o.ret == ("const", 0), "%s: the Ok case returns %s, not 0" % (key, sem.fmt(o.ret)))
         ck.ob("I-ok-no-err-call", key, not o.calls("into_int_err"), "%s encodes an error on the Ok case" % key)
     for o in errs:
